@@ -6,6 +6,7 @@ import (
 	"encoding/json"
 	"flag"
 	"fmt"
+	"golang.org/x/tools/go/ssa"
 	"os"
 	"path/filepath"
 	"regexp"
@@ -16,20 +17,20 @@ import (
 )
 
 type PropConfig struct {
-	ID          string   `json:"id"`
-	Functions   []string `json:"functions"`   // function keys or prefix*
-	Lemmas      []string `json:"lemmas"`      // lemma name prefixes
-	Kinds       []string `json:"kinds"`       // obligation kinds claimed (empty = all)
-	Include     []string `json:"include"`     // regexps on obligation names; if set, only these (after kinds)
-	Exclude     []string `json:"exclude"`     // regexps on obligation names not claimed (with reason in ExcludeWhy)
-	ExcludeWhy  string   `json:"exclude_why"`
-	Assumptions []string `json:"assumptions"`
-	TrustedBase []string `json:"trusted_base"`
-	Explanation string   `json:"explanation"`
-	Replay      string   `json:"replay"` // replay family
-	Witnesses   []string `json:"witnesses"` // witness inputs tried first by the replay harness
-	Slow        []string `json:"slow"`      // regexps: obligations only run in the thorough tier
-	MinObl      int      `json:"min_obligations"`
+	ID          string        `json:"id"`
+	Functions   []string      `json:"functions"` // function keys or prefix*
+	Lemmas      []string      `json:"lemmas"`    // lemma name prefixes
+	Kinds       []string      `json:"kinds"`     // obligation kinds claimed (empty = all)
+	Include     []string      `json:"include"`   // regexps on obligation names; if set, only these (after kinds)
+	Exclude     []string      `json:"exclude"`   // regexps on obligation names not claimed (with reason in ExcludeWhy)
+	ExcludeWhy  string        `json:"exclude_why"`
+	Assumptions []string      `json:"assumptions"`
+	TrustedBase []string      `json:"trusted_base"`
+	Explanation string        `json:"explanation"`
+	Replay      string        `json:"replay"`    // replay family
+	Witnesses   []string      `json:"witnesses"` // witness inputs tried first by the replay harness
+	Slow        []string      `json:"slow"`      // regexps: obligations only run in the thorough tier
+	MinObl      int           `json:"min_obligations"`
 	Bounded     []BoundedSpec `json:"bounded"`
 }
 
@@ -217,6 +218,11 @@ func cmdCheck(args []string) int {
 		}
 		if ct := e.contracts.Funcs[k]; ct != nil && ct.Inline {
 			// verified in the context of each caller (expanded at its call sites)
+			inlined = append(inlined, k)
+			continue
+		}
+		if f := e.funcs[k]; f != nil && e.contracts.Funcs[k] == nil && !explicit[k] && f.Object() != nil && !f.Object().Exported() && autoInlinable(f) && e.staticallyCalled()[f] {
+			// a small unexported helper without a contract: expanded (and checked) at each of its call sites
 			inlined = append(inlined, k)
 			continue
 		}
@@ -451,7 +457,6 @@ func maxInt(a, b int) int {
 
 func round2(f float64) float64 { return float64(int(f*100+0.5)) / 100 }
 
-
 // runProbes: reachability probes of the assumed library contracts (functions *.verifProbe* in /repo, build tag
 // verif). Each probe returns true in a situation that really occurs; with the synthetic postcondition
 // "mustfail: !result" the obligation must be REFUTED (sat). A probe that is proved instead means an assumed contract
@@ -499,4 +504,28 @@ func runProbes(e *Engine, timeout time.Duration) (bad []string, n int) {
 		}
 	}
 	return bad, n
+}
+
+// staticallyCalled: the repository functions that some other repository function calls directly.
+func (e *Engine) staticallyCalled() map[*ssa.Function]bool {
+	if e.calledCache != nil {
+		return e.calledCache
+	}
+	m := map[*ssa.Function]bool{}
+	for _, f := range e.funcs {
+		if f == nil {
+			continue
+		}
+		for _, b := range f.Blocks {
+			for _, in := range b.Instrs {
+				if c, ok := in.(ssa.CallInstruction); ok {
+					if g := c.Common().StaticCallee(); g != nil && g != f {
+						m[g] = true
+					}
+				}
+			}
+		}
+	}
+	e.calledCache = m
+	return m
 }
